@@ -57,3 +57,16 @@ prop("C20", run="^TestC20", level="exploration",
      text="Model-based stateful exploration of mutator and accessor histories with an invariant after every step.",
      note="Trusted: the presence model (flag <=> non-empty part; COMPRESSED <=> last SetCompress(true) and opcode not STARTUP/OPTIONS/READY).",
      technique="stateful property-based testing (rapid): model-based mutator/accessor sequences with per-step invariant", design="DESIGN.md 4 C20")
+
+prop("C02", run="^TestC02", level="exploration",
+     quick=(16, 2000, 900), thorough=(16, 60000, 7200),
+     rule=FRAME_GEN + " (write types restricted to those the version's spec text lists); oracle: independent reference encoder written from specs/*.spec - header byte-exact, body byte-exact modulo order of wire-map entries "
+          "(compressed bodies: independent LZ4/Snappy decoders must recover a reference-conforming body, LZ4 length prefix big-endian); reference bytes with generated map-entry orders and independently "
+          "compressed (literal-only) bodies must decode to the frame; plus the exhaustive 256x256 (version byte, opcode) header sweep against a typed-in accept/reject table through DecodeHeader and DecodeFrame; "
+          "non-trivial = body has >= 2 annotated fields; distinct by reference bytes hash; header sweep distinct by construction",
+     assumptions=["the reference encoder (harness/ref, ~900 lines) is trusted base; it reads library structs as plain data and computes flags/counts/lengths itself",
+                  "flag choice global_tables_spec mirrors the library (the spec leaves it to the encoder)",
+                  "Appendix A '?' cells (write types CAS/VIEW/CDC outside v5, MOVED_NODE after v3) are not asserted"],
+     text="Differential exploration against an independent spec-derived codec in both directions, plus an exhaustive sweep of the finite header space for the rejection clause.",
+     note="Trusted: harness/ref (frame.go, wire.go, lz4.go) typed in from the six specification files; disagreements were triaged against the spec text (DESIGN.md 6).",
+     technique="differential property-based testing (rapid) against a spec-derived reference encoder; exhaustive enumeration of the 2^16 header space", design="DESIGN.md 4 C02, 3.3")
